@@ -31,7 +31,11 @@ thread_local! {
 
 fn gen_program(r: &mut Rng) -> (Vec<u8>, &'static str) {
     let roll = r.below(100);
-    if roll < 50 {
+    if roll < 12 {
+        // values that double at every step: the size limit has to hold them
+        // down or lifting and inference never finish
+        (workload::gen_growth(r), "growth_chain")
+    } else if roll < 50 {
         (workload::gen_cfg(r), "cfg")
     } else if roll < 80 {
         (workload::gen_storage(r), "storage")
